@@ -424,7 +424,9 @@ class HostConnection(object):
         conn = self._get_connection()
         if conn.orphaned_threshold_reached:
             with self._lock:
-                if not self._is_replacing:
+                # conn may have been replaced since it was read above; only the
+                # current connection is replaced, never one that already was
+                if not self._is_replacing and conn is self._connection:
                     self._is_replacing = True
                     self._session.submit(self._replace, conn)
                     log.debug(
